@@ -44,9 +44,17 @@ def iwAll (v n : Nat) (pairs : Option (List (Nat × Nat))) : String :=
 
 /-! ### session state (dispatcher with scripted decoders, …) -/
 
+/-- the scripted dispatcher of the stream correspondence: accepts a candidate iff it starts with one
+    of the lead marks 9000 / 2400 and has even length; state = number of accepted frames;
+    output = the accepted frame -/
+def streamDec : Stream.Dec Nat (List Int) :=
+  { decode := fun s x _ =>
+      if (x.headD 0 == 9000 || x.headD 0 == 2400) && x.length % 2 == 0 then (true, s + 1, [x]) else (false, s, []) }
+
 open Dispatcher DispatchScript in
 structure Sess where
   disp : Dispatcher.St DispatchScript.ScriptSt := ⟨none, none, false, ⟨[]⟩⟩
+  strm : Stream.FState Nat := { ds := 0 }
 
 open Dispatcher DispatchScript Match
 
@@ -143,6 +151,27 @@ def step (ss : Sess) (line : String) : Sess × String :=
       let st' := Dispatcher.release ss.disp c
       ({ ss with disp := st' }, s!"ok ; {dispState st'}")
     | none => (ss, s!"ok ; {dispState ss.disp}")
+  -- streaming thread, fine-grained machine with the scripted dispatcher
+  | ["st_new"] => ({ ss with strm := { ds := 0 } }, "ok")
+  | "st_fpush" :: f :: ws =>
+    match f.toNat?, parseInts ws with
+    | some f, some l => ({ ss with strm := Stream.feedPush ss.strm (l, f) }, "ok")
+    | _, _ => (ss, "bad-op")
+  | ["st_fset"] => ({ ss with strm := Stream.feedSet ss.strm }, "ok")
+  | ["st_w"] =>
+    if Stream.workerEnabled ss.strm then
+      let (st', o) := Stream.workerStep streamDec ss.strm
+      let pcs := match st'.pc with
+        | .waiting => "wait" | .clearing => "clear" | .draining => "len" | .unpop => "appendleft" | .pushing => "appendleft"
+      let bufs := " | ".intercalate (st'.buffer.map fun (b, f) => s!"{f}: {showInts b}")
+      ({ ss with strm := st' }, s!"out [{" ; ".intercalate (o.map showInts)}] at {pcs} flag {st'.flag} univ {st'.univ} buffer [{bufs}]")
+    else (ss, "blocked")
+  | "st_run" :: f :: ws =>
+    match f.toNat?, (splitBar ws).mapM parseInts with
+    | some f, some cs =>
+      let (s', o, r) := Stream.runChunks streamDec f 0 [] cs
+      (ss, s!"state {s'} out [{" ; ".intercalate (o.map showInts)}] rem [{showInts r}]")
+    | _, _ => (ss, "bad-op")
   | _ => (ss, "bad-op")
 
 partial def loop (h : IO.FS.Stream) (out : IO.FS.Stream) (ss : Sess) : IO Unit := do
